@@ -361,6 +361,14 @@ def conversation(rng, names, all_carriers=None):
                 x["call"]["id"] = {"i": 20 + k}
             elif x["call"].get("id") is not None:
                 x["call"]["id"] = {"s": f"streak-{k}"}
+    outstanding = False
+    for x in xs:
+        # the very params object of the previous call is handed over again only when no earlier request can
+        # still be queued in a transport (a call that gave up leaves one behind: conversations are sequential)
+        if outstanding:
+            x["call"].pop("reuse", None)
+        if "D" in x or x["call"].get("form") == "raising":
+            outstanding = True
     case = {"xs": xs, "style": style(rng), "D": 5120, "tie": rng.choice(TIES), "wire": wire(rng, xs),
             "via": rng.choice(["cm", "cm", "transport"])}   # the *_client context manager, or the Transport class
     return dims(rng, case)
